@@ -143,16 +143,8 @@ def run_pairs(rng, n):
         inf_np = np.zeros(len(node), float)
         inf_np[th_np[8]] = 1.
         res.append(("derivatives_thermal", "infeed", inf_np, np.asarray(th_nb[8], float), np.zeros(len(node), bool), ""))
-        # gas result post-processing (pressures only: the velocity part needs a fluid object -> API monitor)
         v_mps = m / (v["rho_n"] * br[:, B.AREA])
         pf, pt = node[fn, N.PINIT], node[tn, N.PINIT]
-        p_nb = X.get_pressures_numba(node, fn, tn, v_mps, pf, pt)
-        paf, pat = node[fn, N.PAMB] + pf, node[tn, N.PAMB] + pt
-        msk = ~np.isclose(paf, pat)
-        pam = paf.copy()
-        pam[msk] = 2 / 3 * (paf[msk] ** 3 - pat[msk] ** 3) / (paf[msk] ** 2 - pat[msk] ** 2)
-        add("get_pressures (expression of get_branch_results_gas)", ["p_abs_from", "p_abs_to", "p_abs_mean"],
-            (paf, pat, pam), p_nb)
         # gas result post-processing, whole twin (numpy function vs numba wrapper) with a real fluid object; node
         # temperatures differ from node to node; half of the reverse-flow rows are direction-switched
         for fluid in _gas_nets():
